@@ -67,7 +67,74 @@ class Engine(OpsMixin):
         _m.install(self)
 
     # ======================================================================= exploration
+    _MUTATORS = frozenset(["append", "extend", "insert", "pop", "remove", "clear", "sort", "reverse", "update", "setdefault",
+                           "popitem", "add", "discard", "difference_update", "intersection_update",
+                           "symmetric_difference_update", "appendleft", "extendleft", "popleft", "rotate", "move_to_end",
+                           "__setitem__", "__delitem__", "__iadd__", "__ior__", "__imul__"])
+    _MISSING = object()
+
+    def journal(self, obj):
+        """first in-place change of a container on this path: remember its contents. Everything is put back when the
+        path ends, so that objects that outlive a path (module globals, class attributes) start every path as they
+        were after import - paths stay independent of each other"""
+        j = self.__dict__.setdefault("_journal", {})
+        k = id(obj)
+        if k in j:
+            return
+        if isinstance(obj, list):
+            j[k] = (obj, list(obj))
+        elif isinstance(obj, dict):
+            j[k] = (obj, list(obj.items()))
+        elif isinstance(obj, set):
+            j[k] = (obj, set(obj))
+        elif isinstance(obj, bytearray):
+            j[k] = (obj, bytes(obj))
+        elif type(obj).__name__ == "deque":
+            j[k] = (obj, list(obj))
+
+    def journal_attr(self, obj, name):
+        j = self.__dict__.setdefault("_journal_attrs", {})
+        k = (id(obj), name)
+        if k not in j:
+            j[k] = (obj, name, obj.__dict__.get(name, self._MISSING))
+
+    def rollback(self):
+        j = self.__dict__.get("_journal")
+        if j:
+            for obj, snap in reversed(list(j.values())):
+                try:
+                    if isinstance(obj, list):
+                        obj[:] = snap
+                    elif isinstance(obj, dict):
+                        dict.clear(obj)
+                        for k, v in snap:
+                            dict.__setitem__(obj, k, v)
+                    elif isinstance(obj, set):
+                        obj.clear()
+                        obj.update(snap)
+                    elif isinstance(obj, bytearray):
+                        obj[:] = snap
+                    else:
+                        obj.clear()
+                        obj.extend(snap)
+                except Exception:
+                    pass
+            j.clear()
+        ja = self.__dict__.get("_journal_attrs")
+        if ja:
+            for obj, name, old in reversed(list(ja.values())):
+                try:
+                    if old is self._MISSING:
+                        if name in obj.__dict__:
+                            delattr(obj, name)
+                    else:
+                        setattr(obj, name, old)
+                except Exception:
+                    pass
+            ja.clear()
+
     def start_path(self, prefix):
+        self.rollback()
         self.decisions = list(prefix)
         self.pos = 0
         self.solver.reset()
@@ -126,8 +193,10 @@ class Engine(OpsMixin):
                 outcome = ("escaped", type(e).__name__)
             self.stats["paths"] += 1
             n += 1
+            self.rollback()
             if on_path is not None:
                 on_path(self, outcome)
+        self.rollback()
         left = self.pending
         self.pending = []
         return left
@@ -599,7 +668,35 @@ class Engine(OpsMixin):
             return True
         return mod.split(".")[0] in INTERP_PREFIXES
 
+    def _stays_lazy(self, fn):
+        """interpreted callees receive a generator expression unconsumed; models and native code get its items"""
+        if isinstance(fn, Closure) or fn in (next, iter, isinstance, type, id, hasattr):
+            return True
+        if isinstance(fn, types.MethodType):
+            return self._stays_lazy(fn.__func__)
+        if isinstance(fn, functools.partial):
+            return self._stays_lazy(fn.func)
+        if getattr(fn, "_is_model", False) is True:
+            return False
+        try:
+            if self.models.get(fn) is not None:
+                return False
+        except TypeError:
+            pass
+        if isinstance(fn, type):
+            init = _find_in_mro(fn, "__init__")
+            return init is not None and self.interpretable(init)
+        return self.interpretable(fn)
+
     def call(self, fn, args, kwargs):
+        if isinstance(fn, types.BuiltinMethodType) and fn.__name__ in self._MUTATORS and \
+                isinstance(getattr(fn, "__self__", None), (list, dict, set, bytearray)) or \
+                (type(getattr(fn, "__self__", None)).__name__ == "deque" and getattr(fn, "__name__", "") in self._MUTATORS):
+            self.journal(fn.__self__)
+        if any(isinstance(a, LazyGen) for a in args) or any(isinstance(a, LazyGen) for a in kwargs.values()):
+            if not self._stays_lazy(fn):
+                args = [list(a) if isinstance(a, LazyGen) else a for a in args]
+                kwargs = {k: (list(a) if isinstance(a, LazyGen) else a) for k, a in kwargs.items()}
         if isinstance(fn, Closure):
             return fn.invoke(self, args, kwargs)
         if getattr(fn, "_is_model", False) is True:
@@ -980,6 +1077,8 @@ class Engine(OpsMixin):
             raise Unsupported("augassign target")
 
     def aug(self, op, cur, v):
+        if isinstance(cur, (list, bytearray, set, dict)):
+            self.journal(cur)
         if isinstance(op, ast.Add) and isinstance(cur, list):
             cur.extend(self.iterate(v))
             return cur
@@ -1023,6 +1122,8 @@ class Engine(OpsMixin):
         for t in s.targets:
             if isinstance(t, ast.Subscript):
                 obj = self.eval(t.value, f)
+                if isinstance(obj, (list, dict, bytearray)):
+                    self.journal(obj)
                 idx = self.eval_index(t.slice, f)
                 if isinstance(idx, slice):
                     idx = self.conc_slice(idx, self.length(obj))
@@ -1057,7 +1158,10 @@ class Engine(OpsMixin):
             elif isinstance(t, ast.Name):
                 del f.env[t.id]
             elif isinstance(t, ast.Attribute):
-                delattr(self.eval(t.value, f), t.attr)
+                tgt = self.eval(t.value, f)
+                if isinstance(tgt, (types.ModuleType, type)):
+                    self.journal_attr(tgt, t.attr)
+                delattr(tgt, t.attr)
             else:
                 raise Unsupported("del target")
 
@@ -1217,11 +1321,14 @@ class Engine(OpsMixin):
             self.call(d.fset, [obj, v], {})
             return
         if isinstance(obj, (types.ModuleType, type)):
+            self.journal_attr(obj, name)
             setattr(obj, name, v)
             return
         object.__setattr__(obj, name, v)
 
     def setitem(self, obj, idx, v):
+        if isinstance(obj, (list, dict, bytearray)):
+            self.journal(obj)
         if isinstance(obj, bytearray) and (deep_sym(v) or is_sym(idx)):
             raise Unsupported("store of symbolic byte into a native bytearray (use a SymBytes buffer)")
         if isinstance(obj, SymBytes):
@@ -1804,7 +1911,23 @@ class Engine(OpsMixin):
         return out
 
     def e_GeneratorExp(self, e, f):
-        return self.e_ListComp(e, f)
+        # Python semantics: the outermost iterable is evaluated now, everything else when the generator is consumed -
+        # an exception raised by the element expression surfaces where the generator is iterated
+        first = self.eval(e.generators[0].iter, f)
+        return LazyGen(self.eval(e.elt, fr) for fr in self.comp_iter(e.generators, 0, f, first))
+
+    def comp_iter(self, gens, i, f, first=None):
+        if i == len(gens):
+            yield f
+            return
+        g = gens[i]
+        src = first if i == 0 else self.eval(g.iter, f)
+        for item in self.iterate(src):
+            fr = Frame({}, f.globals, f.fn, f)
+            fr.line_base = f.line_base
+            self.assign(g.target, item, fr)
+            if all(self.truth(self.eval(c, fr)) for c in g.ifs):
+                yield from self.comp_iter(gens, i + 1, fr)
 
     def e_SetComp(self, e, f):
         items = self.e_ListComp(e, f)
@@ -1877,6 +2000,8 @@ class Engine(OpsMixin):
         return self.call(fn, args, kwargs)
 
     def iterate(self, it):
+        if isinstance(it, LazyGen):
+            return it
         if isinstance(it, LazyStr):
             it = self.force_str(it)
         if isinstance(it, SymStr):
@@ -1910,6 +2035,19 @@ class Engine(OpsMixin):
                     if i > self.loop_bound:
                         raise Unsupported("unwinding assertion: __getitem__ iteration")
         return it
+
+
+class LazyGen:
+    """a generator expression of interpreted code: items are computed by the engine when the consumer asks"""
+
+    def __init__(self, gen):
+        self.gen = gen
+
+    def __iter__(self):
+        return self
+
+    def __next__(self):
+        return next(self.gen)
 
 
 class _NoFork(list):
